@@ -53,7 +53,7 @@ def prog_case(rng):
         regs = G.soup_regs(rng)
     else:
         prog, regs = G.structured_program(rng, size=rng.randint(4, 30), aligned=rng.random() < 0.6, faults=rng.random() < 0.3)
-    return {"kind": "prog", "prog": prog, "regs": regs, "mem": G.init_mem(rng), "max_steps": 400, "via": "direct"}
+    return {"kind": "prog", "prog": prog, "regs": regs, "mem": G.init_mem(rng), "max_steps": 400, "via": "asm" if rng.random() < 0.25 else "direct"}
 
 
 def directed_cases():
@@ -147,7 +147,14 @@ def run_case(prop, case, res):
         res.count("mn_" + d["m"])
         max_steps = 1
     else:
-        install_program(sim, case["prog"])
+        if case.get("via") == "asm":
+            # same program through the assembler (the description stays the source of truth)
+            from .icache import asm_text
+
+            sim.load_program(asm_text(case["prog"]))
+            res.count("prog_cases_via_assembler")
+        else:
+            install_program(sim, case["prog"])
         prog = {4 * i: d for i, d in enumerate(case["prog"])}
         addr = 0
         res.count("prog_cases")
